@@ -598,3 +598,9 @@ CHECKS["C13"]["rule"] += (" (7) aimed leftovers (TestC13Slots): hash tables of 2
                           "chosen slot (the first or last four slots, the slots behind the last of 2..16 equal pieces of the table, "
                           "the piece boundaries, or any slot), H2 holds a near-copy at the same position and the n-gram further on; "
                           "GOMAXPROCS (1..16, mostly not a power of two) is part of the case; same differential oracle.")
+CHECKS["C02"]["quick"]["tests"].append({"test": "TestC02Collide", "checks": 800, "subchecks": 5})
+CHECKS["C02"]["thorough"]["tests"].append({"test": "TestC02Collide", "checks": 5000, "subchecks": 5})
+CHECKS["C02"]["rule"] += (" Plus aimed collisions (TestC02Collide, hash parsers): the stream starts with X P M (|X| 0..3, |P| 1..48), then "
+                          "n-grams built to take over the hash slots of every position inside X P (all or three quarters of them), then "
+                          "P M again: the only match is found at the second M and its backward extension runs up to the first byte of "
+                          "the stream.")
